@@ -1,1 +1,3 @@
+pub mod corpus;
 pub mod curve;
+pub mod doc;
